@@ -244,6 +244,7 @@ func runC03(c *Ctx) {
 	l.Run(seedHandlerParams(l, t))
 	pkH, pkU := p.Pkg(pkgCheckHandle), p.Pkg(pkgCheckUtil)
 	c03EmptyCurrent(c, l)
+	ruleEqualityHelper(c, "EQUALITY-HELPER", pkgs)
 	c.Rule("SUPPRESSION-CONFIGURED", "the annotation filter drops an annotation only under a condition that reads the configuration", 4)
 	ruleSuppressionGuarded(c, "SUPPRESSION-CONFIGURED")
 
@@ -292,6 +293,11 @@ func runC03(c *Ctx) {
 				return true
 			})
 			c.Ob("LABEL-ADAPTER", fr.ID()+"/lookup", call.Pos(), okLookup, true, "current element is found in the current index under the previous element's key: %s", desc)
+			// every pair that exists reaches the callback: the conditions around the call consult nothing of the elements
+			// themselves (a filter such as `ok && !file.IsImport()` in one adapter lets the rules built on it miss what the
+			// rules built on its siblings report - added after round-4 seed C04-k)
+			filter := adapterFilterCond(p, l, call, info, encl)
+			c.Ob("LABEL-ADAPTER", fr.ID()+"/unfiltered", call.Pos(), filter == "", true, "no condition around the callback consults the current or previous element (every existing pair is handed on): %q", filter)
 		}
 		if calls == 0 {
 			c.Fail("LABEL-ADAPTER", fr.ID()+"/call", fr.Decl.Pos(), "adapter never invokes its callback")
@@ -620,4 +626,25 @@ func (cc *callClosure) reach(fn *types.Func) map[*types.Func]bool {
 	}
 	cc.memo[fn] = seen
 	return seen
+}
+
+// adapterFilterCond returns the text of a condition around the callback call of a pair adapter that consults the
+// current or previous element ("" when there is none).
+func adapterFilterCond(p *Prog, l *labeler, call *ast.CallExpr, info *types.Info, encl *ast.FuncDecl) string {
+	filter := ""
+	for cur := p.Parent(call); cur != nil && cur != ast.Node(encl); cur = p.Parent(cur) {
+		ifs, ok := cur.(*ast.IfStmt)
+		if !ok || (ifs.Init != nil && containsNode(ifs.Init, call)) || containsNode(ifs.Cond, call) {
+			continue
+		}
+		ast.Inspect(ifs.Cond, func(m ast.Node) bool {
+			if id, ok := m.(*ast.Ident); ok {
+				if o := info.Uses[id]; o != nil && l.lab[o] != 0 && !isErrorType(o.Type()) {
+					filter = exprString(ifs.Cond)
+				}
+			}
+			return true
+		})
+	}
+	return filter
 }
